@@ -17,6 +17,7 @@ import Driver.StateDb
 import Driver.Prestate
 import Driver.Bundle
 import Driver.Util
+import Driver.Interp
 /-! Line-protocol driver: one request per line on stdin, one reply per line on stdout.
 Stateless components are dispatched on the first token. A stateful component `X` adds a field
 `x : Driver.X.St := Driver.X.St.init` to `DState`, resets it on `begin x …` and threads it through
@@ -33,6 +34,7 @@ structure DState where
   statedb : StateDb.St := {}
   prestate : Prestate.St := {}
   bundle : Driver.Bundle.St := Driver.Bundle.St.init
+  interp : Driver.Interp.St := Driver.Interp.St.init
   -- stateful component states go here
 
 def step (st : DState) (line : String) : DState × String :=
@@ -64,6 +66,9 @@ def step (st : DState) (line : String) : DState × String :=
   | "pst" :: r => let (s, out) := Prestate.handle st.prestate r; ({ st with prestate := s }, out)
   | "begin" :: "bundle" :: r => let (b, out) := Bundle.handleBegin r; ({ st with bundle := b }, out)
   | "bundle" :: r => let (b, out) := Bundle.handle st.bundle r; ({ st with bundle := b }, out)
+  | "begin" :: "interp" :: r => let (s, o) := Driver.Interp.begin r; ({ st with interp := s }, o)
+  | "i" :: r => let (s, o) := Driver.Interp.handle st.interp r; ({ st with interp := s }, o)
+  | "interp" :: r => (st, Driver.Interp.handleStateless r)
   | _ => (st, "bad-op")
 
 partial def loop (hin hout : IO.FS.Stream) (st : DState) : IO Unit := do
